@@ -41,6 +41,9 @@ def elt_configs(tier):
         ("start_quit_destroy", ["quit"], {}),
         ("task_quits", ["q 1"], {1: ["quit"]}),
         ("run_and_queue", ["r 1", "q 2"], {1: ["q 3"]}),
+        # the loop is ended by somebody else; the destructor comes later (`pt` = a schedule point of the driver)
+        ("user_quit_destroy_later", ["quit", "pt"], {}),
+        ("functor_quit_destroy_later", ["q 1", "pt"], {1: ["quit"]}),
     ]
     if tier != "quick":
         cfgs += [("two_tasks_nested", ["q 1", "q 2"], {1: ["q 3", "r 4"], 2: ["quit"]})]
@@ -99,6 +102,8 @@ def gen_random_elt(rng, cid):
             scripts[t] = ["quit"]          # only the last task may quit: nothing is submitted to the loop after it
     if rng.random() < 0.15:
         acts.append("quit")
+    if rng.random() < 0.4:
+        acts.append("pt")          # lets the schedule run the child (possibly to its end) before the destructor
     return looplib.mkcase(cid, "elt", schedlib.random_source(rng, pspur=rng.choice([0, 0, 10])) + " spur=%d" % rng.choice([0, 0, 2]),
                           prefix=["start"] + acts + ["destroy"], scripts=scripts, poller=rng.choice(["epoll", "poll"]),
                           pts=rng.choice([1, 1, 1, 0]), tag="random")
@@ -117,6 +122,20 @@ def pool_cases(rng, tier):
             cases.append(looplib.mkcase("pool_n%d_%d" % (n, v), "pool", src, n=n, calls=calls, hashes=hs, pts=0, steps=20000, tag="pool"))
             cases[-1].ops.append("O " + " ".join(ops))
     return cases
+
+
+BIG = 1 << 31
+
+
+def big_pool_cases(which="wrap31"):
+    """getNextLoop() across the int wrap-around of the cursor: N = 7, 2^31 - 8 unrecorded calls, then 40
+    recorded ones (and the 2^32 boundary for N = 3 when asked).  ~10 s each on the -O2 driver."""
+    cs = [looplib.mkcase("pool_big_n7_2e31", "pool", schedlib.list_source([]), n=7, calls=0, hashes=[1], pts=0, steps=20000,
+                         tag="pool", big=BIG - 8, tail=40)]
+    if which == "all":
+        cs.append(looplib.mkcase("pool_big_n3_2e32", "pool", schedlib.list_source([]), n=3, calls=0, hashes=[1], pts=0, steps=20000,
+                                 tag="pool", big=2 * BIG - 8, tail=40))
+    return cs
 
 
 def nontrivial(run):
@@ -152,7 +171,12 @@ def run(chk, replay=None):
 
     if replay:
         cases = schedlib.load_cases(replay)
-        absorb(cases, RL.run_impl(cases))
+        fast = [c for c in cases if looplib.hdr_get(c.header, "big")]
+        slow = [c for c in cases if not looplib.hdr_get(c.header, "big")]
+        if slow:
+            absorb(slow, RL.run_impl(slow))
+        if fast:
+            absorb(fast, looplib.Runner(looplib.build_impl_fast()).run_impl(fast, jobs=2))
     else:
         corpus = looplib.load_corpus(PROP)
         if corpus:
@@ -202,6 +226,15 @@ def run(chk, replay=None):
             chunk = cases[i:i + 20000]
             absorb(chunk, RL.run_impl(chunk))
         stats["random_loop_runs"], stats["random_thread_runs"], stats["pool_runs"] = nl, ne, len(pc)
+        # getNextLoop() across the int wrap-around of its cursor: always in the thorough tier; in the quick tier only
+        # when the link lemma generated = model no longer checks (then a failing input is looked for there)
+        link_broken = (not pr["ok"]) and any("C05_GenLink" in str(b) or "gen_" in str(b) for b in pr["broken"] + pr["problems"])
+        if tier != "quick" or link_broken:
+            big = big_pool_cases("all" if link_broken else "wrap31")
+            RF = looplib.Runner(looplib.build_impl_fast())
+            absorb(big, RF.run_impl(big, jobs=2))
+            stats["pool_runs"] += len(big)
+            stats["long_pool_runs"] = [c.header.split(" sched=")[0] for c in big]
     t_impl = time.time()
 
     # ------------------------------------------------------------------ oracle (property text)
@@ -255,8 +288,10 @@ def run(chk, replay=None):
         for c in pools:
             r = all_runs[c.cid]
             m = dict((l.split()[0], l.split()[1:]) for l in outs.get(c.cid, [])[1:] if l and l != "end")
-            i = dict((l.split()[0], l.split()[1:]) for l in r.extra if l.split()[0] in ("next", "hash", "ops"))
-            for key in ("next", "hash", "ops"):
+            i = dict((l.split()[0], l.split()[1:]) for l in r.extra if l.split()[0] in ("next", "hash", "ops", "tail"))
+            for key in ("next", "hash", "ops", "tail"):
+                if key not in i and key not in m:
+                    continue
                 if key not in m or m.get(key) != i.get(key) or m.get("g" + key) != i.get(key):
                     pool_bad.append((c, "%s: implementation %s, model %s, generated %s" % (key, i.get(key), m.get(key), m.get("g" + key))))
                     break
@@ -307,11 +342,20 @@ def run(chk, replay=None):
                 "sequential consistency; code between two schedule points is atomic; eventfd/epoll/poll/pthread_create/join are the OS's",
                 "std::vector / std::function / muduo::Thread start-up latch (the latter abstracted to one boolean)")
 
+    fast_runner = []
+
+    def run_one(cc):
+        """one case on the driver that fits it (billions of calls: the -O2 build)"""
+        if looplib.hdr_get(cc.header, "big"):
+            if not fast_runner:
+                fast_runner.append(looplib.Runner(looplib.build_impl_fast()))
+            return fast_runner[0].run_impl([cc], jobs=1)[cc.cid]
+        return RL.run_impl([cc], jobs=1)[cc.cid]
+
     def fails_with(c, pred):
         def f(sched):
             cc = vlib.Case("s", schedlib.set_source(c.header, schedlib.list_source(sched)), c.ops)
-            rr = RL.run_impl([cc], jobs=1)["s"]
-            return pred(cc, rr)
+            return pred(cc, run_one(cc))
         return f
 
     def oracle_any(cc, rr):
@@ -325,7 +369,7 @@ def run(chk, replay=None):
         pred = lambda cc, rr: any(k == want_key for (k, _) in oracle_any(cc, rr) if not (k or "").startswith("~"))
         sched = schedlib.shrink_schedule(realised(r), fails_with(c, pred), max_tests=120)
         small = vlib.Case(c.cid, schedlib.set_source(c.header, schedlib.list_source(sched)), c.ops)
-        rr = RL.run_impl([small], jobs=1)[small.cid]
+        rr = run_one(small)
         msgs = [m for (k, m) in oracle_any(small, rr) if k == want_key and not (k or "").startswith("~")]
         msg2 = msgs[0] if msgs else msg
         extra = ""
